@@ -87,4 +87,9 @@ theorem text_SessionManager_getTokenChunkSessions_ok : Oidc.Shapes.Text_SessionM
 /-! further obligations against the regenerated program text (`Oidc/Shapes.lean`): constructor wiring and URL builders -/
 theorem text_New_ok : Oidc.Shapes.Text_New := by unfold Oidc.Shapes.Text_New; rfl
 
+
+/-! ## Program text of the helpers these theorems also rest on (constructors, accessors, token endpoint, configuration) -/
+theorem text_Config_Validate_ok : Oidc.Shapes.Text_Config_Validate := by unfold Oidc.Shapes.Text_Config_Validate; rfl
+theorem text_CreateConfig_ok : Oidc.Shapes.Text_CreateConfig := by unfold Oidc.Shapes.Text_CreateConfig; rfl
+
 end Oidc.Props.C09
